@@ -155,7 +155,7 @@ class Check:
                     if fn.startswith("cases_") or fn in ("meta.json", "cases.jsonl"):
                         os.remove(os.path.join(out, fn))
             t = time.time()
-            rc, log = core.harness(b, c["comp"], out, seed=self.seed, n=n, tier=self.tier, timeout=c.get("timeout", 3000))
+            rc, log = core.harness(b, c["comp"], out, seed=self.seed, n=n, tier=self.tier, timeout=c.get("timeout", 600 if self.tier == "quick" else 3000))
             if rc != 0 or not os.path.exists(os.path.join(out, "meta.json")):
                 self.broken.append({"kind": "broken-tie", "name": "harness component %s exited %d" % (c["comp"], rc),
                                     "component": c["comp"], "detail": log[-4000:]})
